@@ -168,7 +168,8 @@ def specCheck (line : String) : String :=
       match n.toNat?, aw with
       | some n, ["ok", ts] =>
         match parseTab ts with
-        | some t => if t.n == n && stabilizesB t (Vec.basis n 0) then "ok" else "fail new-not-zero-state"
+        | some t => if n > 8 then "skip"   -- exact vectors have 2^n entries
+                    else if t.n == n && stabilizesB t (Vec.basis n 0) then "ok" else "fail new-not-zero-state"
         | none => "fail unparsable-answer"
       | _, _ => "fail new-did-not-return"
     | "conj" :: _ => "skip"
